@@ -73,6 +73,9 @@ func staticReachLabels(h *harnessInfo) []string {
 
 func (r *report) evaluate(hs []*harnessInfo, stats []*interp.HarnessStats, rb *replayBuilder) int {
 	rdir := filepath.Join(*verifDir, "replays", r.prop)
+	if *filter == "" {
+		os.RemoveAll(rdir)
+	}
 	os.MkdirAll(rdir, 0o755)
 	var knownKeys []string
 	for k := range r.knownText {
